@@ -20,3 +20,14 @@ Theorem C14_fair_schedule_completes : forall all d reqs,
   all_done (crun (cinit all d reqs) (flat_map (fun i => [i; i; i]) (seq 0 (length reqs)))) = true.
 Proof. exact C14_progress. Qed.
 Print Assumptions C14_fair_schedule_completes.
+
+(* composed with loading and with the property theorems (Proofs/EndToEnd.v): under ANY schedule of concurrently served
+   requests, the response a thread completes with satisfies C01/C02/C06/C07 and the optimality statements against d *)
+From TrV Require Import Spec Loader2 Proofs.Loader2Proofs Properties.Common Proofs.EndToEnd.
+Theorem C14_concurrent_route_answers_are_correct : forall all d reqs sched i a s p acc egr,
+  in_domain d s p acc egr -> encodable_b d = true ->
+  nth_error reqs i = Some (QRoute p false acc egr) ->
+  nth_error (cs_threads (crun (cinit all (loaded d) reqs) sched)) i = Some (TDone a) ->
+  route_response_correct d s p acc egr a.
+Proof. exact concurrent_route_answers_are_correct. Qed.
+Print Assumptions C14_concurrent_route_answers_are_correct.
